@@ -152,6 +152,19 @@ def compareParse (st : CodecSt) (ln : Nat) (ver pw fh : Nat) (body : List Nat) (
             r.viol s!"C03 rejects_spec_encoding@{kind}" s!"{loc}: these bytes are exactly the specification's encoding of a well-formed {kind} (fields {Acc.render (accFields pw p)}); the implementation refuses them with {e}"
           else r
         | _, _ => r
+      -- C04 "buildable": the implementation accepts, and what it accepted re-encodes to bytes the
+      -- model parser refuses.  The model parser accepts every builder output (build_ok_wf +
+      -- C02_builder_roundtrip), so no builder produces the accepted packet.
+      let r := match m, i with
+        | .err e, .ok _ _ cont' _ _ _ =>
+          (match frameBody cont' with
+           | some (fh', _, body') =>
+             (match Packet.parse ver pw fh' body' with
+              | some (.err e') =>
+                if c04 then r.viol s!"C04 buildable.model_rejects@{kind}" s!"{loc}: accepted (the specification's parser answers {e.name}); the accepted packet re-encodes to {short cont'}, which no builder can produce (every builder output parses; these bytes are refused with {e'.name})" else r
+              | _ => r)
+           | none => r)
+        | _, _ => r
       (st, r)
 
 def codecP (st : CodecSt) (ln : Nat) (line : String) (r : Report) : CodecSt × Report :=
